@@ -1,15 +1,324 @@
-"""ProbLog Term trees as a recursive SMT datatype (assumption A-term)."""
+"""ProbLog term trees as a recursive SMT datatype (assumption A-term).
+
+    Term = VNone | VInt(i) | VNamed(name)            -- None / int / Var objects (variables)
+         | CInt(i) | CFloat(x) | CStr(s)             -- Constant objects by payload type
+         | Struct(scls, functor, args: List[Term])   -- Term / Not / And / Or / Clause objects
+    List[Term] = mk(len, Array Int Term)
+
+A-term: Term objects are immutable trees; `functor`, `args`, `arity`, `is_var()`, `is_constant()`,
+`is_float()`, `is_integer()`, `is_string()`, `isinstance(t, Var|Constant|Term|Not)`, `type(t) == int`,
+`t is None` read the constructor (these one-line methods of problog.logic are what the abstraction
+replaces; it is listed in the trusted base).  Code that needs the kind of a term forks on the
+constructor (decide), so every path knows the static Python type of `t.functor`.
+"""
 import z3
 from .types import *
+from . import types as T
 from .values import *
 from .state import *
 
 _TERM = None
+_TLIST = None
+
+SCLS = {"Term": 0, "Not": 1, "And": 2, "Or": 3, "Clause": 4, "AnnotatedDisjunction": 5, "AggTerm": 6}
+KINDS = ["VNone", "VInt", "VNamed", "CInt", "CFloat", "CStr", "Struct"]
+
+
+def _build():
+    global _TERM, _TLIST
+    if _TERM is not None:
+        return
+    src = """
+(declare-datatypes ((Term 0) (List_Term 0)) (
+  ((VNone) (VInt (vi Int)) (VNamed (vname String)) (CInt (ci Int)) (CFloat (cf Real)) (CStr (cs String))
+   (Struct (scls Int) (functor String) (args List_Term)))
+  ((mk_List_Term (len_List_Term Int) (arr_List_Term (Array Int Term))))
+))
+(declare-const probe!term Term)
+(assert (= probe!term probe!term))
+"""
+    fs = z3.parse_smt2_string(src)
+    _TERM = fs[0].arg(0).sort()
+    _TLIST = _TERM.constructor(6).domain(2)
+    T._cache["Term"] = _TERM
+    T._cache["List[Term]"] = _TLIST
 
 
 def term_sort():
-    raise Unsupported("Term ADT not built yet")
+    _build()
+    return _TERM
+
+
+def tlist_sort():
+    _build()
+    return _TLIST
+
+
+def K(name):
+    """(constructor, recognizer, accessors) of a Term constructor."""
+    s = term_sort()
+    i = KINDS.index(name)
+    return s.constructor(i), s.recognizer(i), [s.accessor(i, j) for j in range(s.constructor(i).arity())]
+
+
+def is_kind(t, name):
+    return K(name)[1](t)
+
+
+def acc(t, name, j=0):
+    return K(name)[2][j](t)
+
+
+TLIST = TList(TERM)
+
+
+def concretize_term(m, t):
+    e = m.eval(t, model_completion=True)
+    for i, k in enumerate(KINDS):
+        if z3.is_true(m.eval(term_sort().recognizer(i)(e), model_completion=True)):
+            if k == "VNone":
+                return {"term": ["none"]}
+            if k == "VInt":
+                return {"term": ["vint", int(str(m.eval(acc(e, k), model_completion=True)))]}
+            if k in ("VNamed", "CStr"):
+                v = m.eval(acc(e, k), model_completion=True)
+                return {"term": ["var" if k == "VNamed" else "cstr", v.as_string() if z3.is_string_value(v) else str(v)]}
+            if k == "CInt":
+                return {"term": ["cint", int(str(m.eval(acc(e, k), model_completion=True)))]}
+            if k == "CFloat":
+                r = m.eval(acc(e, k), model_completion=True)
+                try:
+                    return {"term": ["cfloat", "%s/%s" % (r.numerator_as_long(), r.denominator_as_long())]}
+                except Exception:
+                    return {"term": ["cfloat", str(r)]}
+            sc = int(str(m.eval(acc(e, k, 0), model_completion=True)))
+            f = m.eval(acc(e, k, 1), model_completion=True)
+            al = acc(e, k, 2)
+            n = int(str(m.eval(tlist_sort().accessor(0, 0)(al), model_completion=True)))
+            if n > 8 or n < 0:
+                return {"unknown": "term with %d args" % n}
+            arr = tlist_sort().accessor(0, 1)(al)
+            args = [concretize_term(m, z3.Select(arr, j)) for j in range(n)]
+            return {"term": ["struct", sc, f.as_string() if z3.is_string_value(f) else str(f), args]}
+    return {"unknown": "term"}
+
+
+def _sf(ty, f):
+    def call(ex, args, node):
+        return Val(ty, f(args[0].t))
+    return call
+
+
+def _tk(ex, args, node):
+    t = args[0].t
+    e = z3.IntVal(len(KINDS) - 1)
+    for i in reversed(range(len(KINDS) - 1)):
+        e = z3.If(term_sort().recognizer(i)(t), z3.IntVal(i), e)
+    return vint(e)
+
+
+def _t_arity(ex, args, node):
+    t = args[0].t
+    return vint(z3.If(is_kind(t, "Struct"), tlist_sort().accessor(0, 0)(acc(t, "Struct", 2)), z3.IntVal(0)))
+
+
+# total accessors for specifications (no constructor split): tk(t) is the constructor index
+# 0 VNone 1 VInt 2 VNamed 3 CInt 4 CFloat 5 CStr 6 Struct
+SPEC_FUNCS = {
+    "tk": _tk,
+    "t_vi": _sf(INT, lambda t: acc(t, "VInt")),
+    "t_vname": _sf(STR, lambda t: acc(t, "VNamed")),
+    "t_ci": _sf(INT, lambda t: acc(t, "CInt")),
+    "t_cf": _sf(FLOAT, lambda t: float_sort().Fin(acc(t, "CFloat"))),
+    "t_cs": _sf(STR, lambda t: acc(t, "CStr")),
+    "t_cls": _sf(INT, lambda t: acc(t, "Struct", 0)),
+    "t_functor": _sf(STR, lambda t: acc(t, "Struct", 1)),
+    "t_args": _sf(TList(TERM), lambda t: acc(t, "Struct", 2)),
+    "t_arity": _t_arity,
+}
 
 
 class TermMixin(object):
-    pass
+    # ------------------------------------------------------------ kind split
+    def term_kind(self, v):
+        """Fork on the constructor of a Term value; afterwards the path condition fixes it."""
+        if self.spec_mode:
+            raise Unsupported("constructor split in a specification (use kind()/t_*() accessors)")
+        cache = self.ctx.counter.setdefault("__kinds", {})
+        key = v.t.get_id()
+        if key in cache:
+            return cache[key][1]
+        kind = "Struct"
+        for k in KINDS[:-1]:
+            if self.ctx.decide(is_kind(v.t, k)):
+                kind = k
+                break
+        else:
+            self.ctx.assume(is_kind(v.t, "Struct"))
+        cache[key] = (v.t, kind)      # keeps the term alive, so the id is not reused
+        return kind
+
+    def term_args(self, v):
+        l = Val(TLIST, acc(v.t, "Struct", 2))
+        for c in type_invariant(l):
+            self.ctx.assume(c)
+        return l
+
+    def term_attr(self, obj, attr, node):
+        if attr in ("location", "probability", "op_priority", "op_spec"):
+            return VNONE
+        if attr in ("is_var", "is_constant", "is_float", "is_integer", "is_string", "is_ground", "is_negated",
+                    "compute_value", "__eq__", "__hash__", "with_args", "apply", "is_scope_term"):
+            return Val(TFun(), None, ("termmeth", obj, attr))
+        k = self.term_kind(obj)
+        if k in ("VNone", "VInt"):
+            exc = "AttributeError"
+            self.safety(z3.BoolVal(False), exc, "attr-%s-of-%s" % (attr, k), node)
+            raise PathEnd()
+        if attr in ("functor", "name", "value"):
+            if k == "Struct":
+                if attr == "value":
+                    args = self.term_args(obj)
+                    neg = z3.And(acc(obj.t, k, 1) == z3.StringVal("'-'"), list_len(args) == 1)
+                    if self.ctx.decide(neg):
+                        inner = Val(TERM, z3.Select(list_arr(args), 0))
+                        ik = self.term_kind(inner)
+                        self.assumptions.add("the value of '-'(N) is -N for a numeric constant N (contract of "
+                                             "Term.value/compute_function on unary minus, verified under C16)")
+                        if ik == "CInt":
+                            return vint(-acc(inner.t, ik))
+                        if ik == "CFloat":
+                            return Val(FLOAT, ffin(-acc(inner.t, ik)))
+                    raise Unsupported("Term.value of a compound (compute_function)")
+                return vstr(acc(obj.t, k, 1))
+            if k == "VNamed":
+                if attr == "value":
+                    self.safety(z3.BoolVal(False), "InstantiationError", "value-of-var", node)
+                    raise PathEnd()
+                return vstr(acc(obj.t, k))
+            if k == "CInt":
+                return vint(acc(obj.t, k))
+            if k == "CFloat":
+                return Val(FLOAT, ffin(acc(obj.t, k)))
+            if k == "CStr":
+                return vstr(acc(obj.t, k))
+        if attr == "args":
+            if k == "Struct":
+                return self.term_args(obj)
+            return mk_list(TLIST, z3.IntVal(0), list_arr(Val(TLIST, z3.Const("noargs", tlist_sort()))))
+        if attr == "arity":
+            if k == "Struct":
+                return vint(list_len(self.term_args(obj)))
+            return vint(0)
+        if attr == "signature":
+            raise Unsupported("Term.signature")
+        raise Unsupported("Term attribute %s" % attr)
+
+    def term_method(self, obj, meth, args, node):
+        if meth == "is_ground":
+            f = z3.Function("t_is_ground", term_sort(), z3.BoolSort())
+            return vbool(f(obj.t))
+        k = self.term_kind(obj)
+        if k in ("VNone", "VInt"):
+            self.safety(z3.BoolVal(False), "AttributeError", "method-%s-of-%s" % (meth, k), node)
+            raise PathEnd()
+        if meth == "is_var":
+            return vbool(k == "VNamed")
+        if meth == "is_constant":
+            return vbool(k in ("CInt", "CFloat", "CStr"))
+        if meth in ("is_float", "is_integer", "is_string"):
+            if k == "Struct" or k == "VNamed":
+                self.safety(z3.BoolVal(False), "AttributeError", "method-%s-of-%s" % (meth, k), node)
+                raise PathEnd()
+            return vbool({"is_float": "CFloat", "is_integer": "CInt", "is_string": "CStr"}[meth] == k)
+        if meth == "is_negated":
+            if k == "Struct":
+                return vbool(acc(obj.t, k, 0) == SCLS["Not"])
+            return vbool(False)
+        raise Unsupported("Term method %s" % meth)
+
+    def term_isinstance(self, v, n, node):
+        if self.spec_mode:
+            t = v.t
+            return {"Var": is_kind(t, "VNamed"),
+                    "Constant": z3.Or(is_kind(t, "CInt"), is_kind(t, "CFloat"), is_kind(t, "CStr")),
+                    "Term": z3.Not(z3.Or(is_kind(t, "VNone"), is_kind(t, "VInt"))),
+                    "int": is_kind(t, "VInt"),
+                    "Not": z3.And(is_kind(t, "Struct"), acc(t, "Struct", 0) == SCLS["Not"])}.get(n, z3.BoolVal(False))
+        k = self.term_kind(v)
+        if n == "Term":
+            return z3.BoolVal(k not in ("VNone", "VInt"))
+        if n == "Var":
+            return z3.BoolVal(k == "VNamed")
+        if n == "Constant":
+            return z3.BoolVal(k in ("CInt", "CFloat", "CStr"))
+        if n == "int":
+            return z3.BoolVal(k == "VInt")
+        if n in SCLS and n != "Term":
+            if k != "Struct":
+                return z3.BoolVal(False)
+            return acc(v.t, "Struct", 0) == SCLS[n]
+        if n in ("Object",):
+            return z3.BoolVal(False)
+        return z3.BoolVal(False)
+
+    def term_as_python_scalar(self, v, node, what):
+        """A Term-typed value that is really a Python int (numbered variable)."""
+        k = self.term_kind(v)
+        if k == "VInt":
+            return vint(acc(v.t, k))
+        self.safety(z3.BoolVal(False), "TypeError", "%s-on-%s" % (what, k), node)
+        raise PathEnd()
+
+    def order_other(self, sym, a, b, node):
+        if a.ty == TERM or b.ty == TERM:
+            if a.ty == TERM:
+                a = self.term_as_python_scalar(a, node, "ordering")
+            if b.ty == TERM:
+                b = self.term_as_python_scalar(b, node, "ordering")
+            if a.ty != b.ty and not (a.ty in (INT, FLOAT) and b.ty in (INT, FLOAT)):
+                self.safety(z3.BoolVal(False), "TypeError", "ordering-%s-%s" % (a.ty, b.ty), node)
+                raise PathEnd()
+            return self.order(sym, a, b, node)
+        if (a.ty == STR) != (b.ty == STR):
+            self.safety(z3.BoolVal(False), "TypeError", "ordering-%s-%s" % (a.ty, b.ty), node)
+            raise PathEnd()
+        raise Unsupported("ordering on %s, %s" % (a.ty, b.ty))
+
+    def term_identical_none(self, v):
+        return is_kind(v.t, "VNone")
+
+    def term_to_float(self, v, node):
+        """float(term): Constant payloads; '-'(number) through compute_function (assumed contract, see C16)."""
+        k = self.term_kind(v)
+        if k == "CInt":
+            i = acc(v.t, k)
+            if self.float_rounding:
+                lim = z3.IntVal(2 ** 1024)
+                self.safety(z3.And(i < lim, i > -lim), "OverflowError", "float-of-int", node)
+            return to_float(vint(i), exact=not self.float_rounding)
+        if k == "CFloat":
+            return Val(FLOAT, ffin(acc(v.t, k)))
+        if k == "Struct":
+            args = self.term_args(v)
+            neg = z3.And(acc(v.t, k, 1) == z3.StringVal("'-'"), list_len(args) == 1)
+            if self.ctx.decide(neg):
+                inner = Val(TERM, z3.Select(list_arr(args), 0))
+                self.assumptions.add("float('-'(N)) = -float(N) for a numeric constant N (contract of "
+                                     "Term.__float__/compute_function on negative literals, verified under C16)")
+                f = self.term_to_float(inner, node)
+                return Val(FLOAT, f_arith("-", ffin(0), f.t, lambda c: None))
+        raise Unsupported("float() of a %s term" % k)
+
+    def term_str(self, v, node):
+        k = self.term_kind(v)
+        if k == "Struct":
+            n = list_len(self.term_args(v))
+            if self.ctx.decide(n == 0):
+                return vstr(acc(v.t, k, 1))
+            return self.ctx.fresh("termrepr", STR)
+        if k in ("VNamed", "CStr"):
+            return vstr(acc(v.t, k))
+        if k == "CInt":
+            return self.bi_str([vint(acc(v.t, k))], {}, node)
+        return self.ctx.fresh("termrepr", STR)
